@@ -30,7 +30,7 @@ CEN_PROV = ["none", "ll", "xyz", "both"]
 
 def cases(tier, seed):
     rng = np.random.default_rng([seed, 404])
-    n = 450 if tier == "quick" else 6000
+    n = 450 if tier == "quick" else 45000
     for i in range(n):
         d = gen.random_mesh(rng, 60 if tier == "quick" else 250)
         yield {"mesh": d, "node": NODE_PROV[int(rng.integers(0, 4))], "face": CEN_PROV[int(rng.integers(0, 4))],
